@@ -194,6 +194,90 @@ async fn scenario(q: usize, before_stall: bool, id: u64) -> Out {
     }
 }
 
+
+/// A peer of topic A that gives the server no flow-control credit at all registers on A with the *other*
+/// messaging pattern: the server has to write a refusal that this peer never takes delivery of. Topic B
+/// must still work.
+async fn zero_window_refusal(id: u64) -> Out {
+    let certs = match gen_certs() {
+        Ok(c) => c,
+        Err(e) => return Out::Inconclusive(format!("certs: {e}")),
+    };
+    let server = match start_server(&certs) {
+        Ok(s) => s,
+        Err(e) => return Out::Inconclusive(format!("server: {e}")),
+    };
+    let addr = server.addr;
+    let topic_a = format!("/stallz{}/topic-a", id);
+    let topic_b = format!("/freez{}/topic-b", id);
+    let tn_a = TopicName::try_from(topic_a.as_str()).unwrap();
+    // topic A exists as a pub/sub topic
+    let normal = match raw_connect(addr, &certs).await {
+        Ok(c) => c,
+        Err(e) => return Out::Inconclusive(format!("connect: {e}")),
+    };
+    let (_keep, r) = match normal.open(Frame::RegisterSubscriber(SubscriberPayload { topic: tn_a.clone(), retention_policy: 0, operations: vec![] }), Duration::from_secs(8)).await {
+        Ok(x) => x,
+        Err(e) => return Out::Inconclusive(format!("subscriber on A: {e}")),
+    };
+    if r != Some(Frame::Ok) {
+        return Out::Inconclusive(format!("subscriber on A answered {:?}", r));
+    }
+    // hostile peer: stream receive window 0 — the server can never write a byte to it
+    let mut cfg = match raw_client_config(&read_der(&certs.client_ca()).unwrap(), ClientIdentity::Cert(read_der(&certs.client_cert()).unwrap(), read_der(&certs.client_key()).unwrap())) {
+        Ok(c) => c,
+        Err(e) => return Out::Inconclusive(format!("config: {e}")),
+    };
+    let mut transport = quinn::TransportConfig::default();
+    transport.stream_receive_window(quinn::VarInt::from_u32(0));
+    transport.keep_alive_interval(Some(Duration::from_secs(2)));
+    cfg.transport_config(Arc::new(transport));
+    let hostile = match raw_connect_with(addr, cfg).await {
+        Ok(c) => c,
+        Err(e) => return Out::Inconclusive(format!("hostile connect: {e}")),
+    };
+    let mut hostile_streams = vec![];
+    for kind in 0..6 {
+        let Ok(mut s) = BiStream::try_from_connection(&hostile.conn).await else { break };
+        use selium_protocol::{ReplierPayload, RequestorPayload};
+        // mismatching registrations (req/rep on a pub/sub topic), and a matching one for good measure
+        let f = match kind % 3 {
+            0 => Frame::RegisterRequestor(RequestorPayload { topic: tn_a.clone() }),
+            1 => Frame::RegisterReplier(ReplierPayload { topic: tn_a.clone() }),
+            _ => Frame::RegisterSubscriber(SubscriberPayload { topic: tn_a.clone(), retention_policy: 0, operations: vec![] }),
+        };
+        let _ = tokio::time::timeout(Duration::from_secs(2), s.send(f)).await;
+        hostile_streams.push(s);
+    }
+    tokio::time::sleep(Duration::from_millis(400)).await;
+    let t1 = Instant::now();
+    let fut = async {
+        let cb = lib_client(&addr.to_string(), &certs, None).await.map_err(|e| format!("connect for topic B: {e}"))?;
+        let mut sub = cb.subscriber(&topic_b).with_decoder(BytesCodec).open().await.map_err(|e| format!("open subscriber on B: {e}"))?;
+        let mut publ = cb.publisher(&topic_b).with_encoder(BytesCodec).open().await.map_err(|e| format!("open publisher on B: {e}"))?;
+        let mut n = 0u8;
+        loop {
+            n = n.wrapping_add(1);
+            publ.send(vec![b'B', n]).await.map_err(|e| format!("send on B: {e}"))?;
+            if let Ok(Some(Ok(_))) = tokio::time::timeout(Duration::from_millis(250), sub.next()).await {
+                return Ok::<(), String>(());
+            }
+        }
+    };
+    let res = tokio::time::timeout(Duration::from_secs(12), fut).await;
+    let took = t1.elapsed().as_millis();
+    server.stop();
+    drop(hostile_streams);
+    match res {
+        Ok(Ok(())) => Out::Held { b_roundtrip_ms: took, queued_ok: 0 },
+        Ok(Err(e)) => Out::Violated("other-topic-failed/zero-window-refusal".into(), format!("while a peer that grants the server no flow-control credit was being refused on topic A, topic B could not be used: {}", e)),
+        Err(_) => Out::Violated(
+            "other-topic-blocked/zero-window-refusal".into(),
+            "a peer with a zero stream receive window registered on pub/sub topic A as requestor/replier (the refusal can never be delivered to it); afterwards a fresh subscriber + publisher on topic B did not complete a round trip within 12 s".into(),
+        ),
+    }
+}
+
 pub fn run(rep: &mut StageReport, tier: &str, _seed: u64) {
     let thorough = tier == "thorough";
     let mut plan: Vec<(usize, bool)> = if thorough {
@@ -230,6 +314,24 @@ pub fn run(rep: &mut StageReport, tier: &str, _seed: u64) {
             }
             Ok(Out::Inconclusive(why)) => rep.inconclusive(&why),
             Err(_) => rep.inconclusive("watchdog: scenario did not finish within 150 s"),
+        }
+    }
+    for k in 0..(if thorough { 5u64 } else { 1 }) {
+        rep.evaluations += 1;
+        let rt = runtime(4);
+        let out = rt.block_on(async { tokio::time::timeout(Duration::from_secs(90), zero_window_refusal(100 + k)).await });
+        drop(rt);
+        match out {
+            Ok(Out::Held { b_roundtrip_ms, .. }) => {
+                rep.distinct.insert(crate::common::mix(0x2E80, k));
+                rep.sample(json!({"scenario": "zero-window peer refused on topic A (pattern mismatch)", "topic_B_round_trip_ms": b_roundtrip_ms as u64}));
+            }
+            Ok(Out::Violated(sig, detail)) => {
+                let replay = write_replay("C17", &sig, k, json!({"property": "C17", "detail": detail}));
+                rep.violation(Violation { signature: format!("C17/server/{}", sig), detail, replay });
+            }
+            Ok(Out::Inconclusive(why)) => rep.inconclusive(&why),
+            Err(_) => rep.inconclusive("watchdog: zero-window scenario did not finish within 90 s"),
         }
     }
     for p in repo_panics_since(mark) {
